@@ -20,10 +20,13 @@ Effect discipline decided from the ASTs of every package a recogniser imports (c
                       structurally (equality-only comparison, the import-time default pair that meets only in
                       `(b - a).days`, results consumed only through `.timex_str`).
  C02.decimal-context  every context-dependent Decimal operation (arithmetic with an operand of Decimal kind, `getcontext()`
-                      use) is dominated by an explicit context: `@precision(prec=..)`, `with localcontext() as c: c.prec = ..`,
-                      or every caller is.  A module-level or unguarded `getcontext().prec = ..` is thread-local configuration.
+                      use) is dominated by an explicit context: `@precision(prec=..)` - whose *definition* is verified on
+                      every run to run the call under `with localcontext() as ctx: ctx.prec = <prec argument>` -,
+                      `with localcontext() as c: c.prec = ..`, or every caller is.  A module-level or unguarded
+                      `getcontext().prec = ..` is thread-local configuration.
  C02.mutable-default  a mutable default argument is never mutated, neither directly nor through the attribute it is stored in.
- C02.class-mutable    class-level lists / dicts / sets are not mutated through `self` in constructors (cross-instance state).
+ C02.class-mutable    a write through `self.<attr>` (in a constructor or a build-time helper) never lands in a class-level
+                      list / dict / set that no constructor of the chain rebinds per instance (one object for all instances).
  C02.one-shot         no one-shot iterator (map / filter / zip / generator) is stored in shared state.
  C02.decorators       every decorator is on the reviewed list; memoising decorators make the result shared state.
 
@@ -2427,8 +2430,9 @@ def decorator_definition_kind(fn):
     definition on every run:
       'context'  - some inner wrapper runs the call to the decorated function inside
                    `with localcontext() as ctx: ctx.prec = <value taken from the factory's arguments>`
+      'wrapper'  - an inner function calls the decorated function; nothing in the factory keeps state; NO context
       'identity' - the inner decorator hands the function back unchanged (no wrapper, no state)
-      None       - anything else"""
+      None       - anything else (unknown: the caller fails closed)"""
     outer_params = {a.arg for a in fn.args.posonlyargs + fn.args.args + fn.args.kwonlyargs}
     for x in (fn.args.vararg, fn.args.kwarg):
         if x is not None:
@@ -2460,6 +2464,30 @@ def decorator_definition_kind(fn):
                 for x in ast.walk(st):
                     if isinstance(x, ast.Call) and isinstance(x.func, ast.Name) and x.func.id in fparams:
                         return 'context'
+    # stateless wrapper: an inner function calls the decorated function, and nothing in the factory keeps state
+    calls_f = any(isinstance(x, ast.Call) and isinstance(x.func, ast.Name) and x.func.id in fparams for x in ast.walk(fn))
+    if calls_f:
+        with_vars = {it.optional_vars.id for w in ast.walk(fn) if isinstance(w, ast.With) for it in w.items
+                     if isinstance(it.optional_vars, ast.Name)}
+        stateless = True
+        for x in ast.walk(fn):
+            if isinstance(x, (ast.Nonlocal, ast.Global)):
+                stateless = False
+            elif isinstance(x, (ast.Assign, ast.AugAssign, ast.Delete)):
+                for t in (x.targets if not isinstance(x, ast.AugAssign) else [x.target]):
+                    if isinstance(t, (ast.Attribute, ast.Subscript)):
+                        b = t
+                        while isinstance(b, (ast.Attribute, ast.Subscript)):
+                            b = b.value
+                        if DecimalAnalysis.is_getcontext(b):
+                            continue        # a thread-context write: reported by C02.decimal-context
+                        if not (isinstance(b, ast.Name) and b.id in with_vars):
+                            stateless = False
+            elif isinstance(x, ast.Call) and isinstance(x.func, ast.Attribute) and x.func.attr in MUTATORS \
+                    and isinstance(x.func.value, ast.Name):
+                stateless = False
+        if stateless:
+            return 'wrapper'
     # identity: def factory(..): def decorator(f): return f ; return decorator
     for n in inner:
         if isinstance(n, ast.FunctionDef) and len(n.args.args) == 1:
@@ -2808,6 +2836,15 @@ def rule_class_mutable(chk, A):
             hit = class_level(u.cls, x)
             if hit is None:
                 continue
+            if kind == 'call':
+                # same root-cause policy as C02.shared-write: effects that only exist because some callee writes its
+                # own receiver on the recognise path are reported once, at that callee
+                if formal == 'self':
+                    if any(SELF in h.mut and h.kind == 'plain' and not A.confined.get((id(h), SELF), False)
+                           for h in A.candidates(u, node)[0]):
+                        continue
+                elif not A.binds_primary(u, node, expr):
+                    continue
             k, attr, v = hit
             fam = A.subclasses_incl(u.cls)
             leaves = [c for c in fam if not any(d is not c and c in A.idx.mro(d) for d in fam)]
@@ -2925,9 +2962,10 @@ def rule_decorators(chk, A):
         elif u is not None and context_decorator(A, u):
             chk.ok(R_DECO, path, '@' + key, 'runs the function under an explicit decimal context', raw.lineno)
         elif u is not None and _resolve_decorator(A, u, raw) is not None \
-                and decorator_definition_kind(_resolve_decorator(A, u, raw)) == 'identity':
-            chk.ok(R_DECO, path, '@' + key, 'defined in the analysed packages: hands the function back unchanged (no wrapper, '
-                   'no state, no decimal context - see %s)' % R_DEC, raw.lineno)
+                and decorator_definition_kind(_resolve_decorator(A, u, raw)) in ('identity', 'wrapper'):
+            chk.ok(R_DECO, path, '@' + key, 'defined in the analysed packages: %s, keeps no state and gives no decimal context '
+                   '(see %s)' % ('hands the function back unchanged' if decorator_definition_kind(
+                       _resolve_decorator(A, u, raw)) == 'identity' else 'a plain wrapper around the call', R_DEC), raw.lineno)
         else:
             raise AnalysisError('%s:%d unknown decorator @%s on %s: it may keep state between calls - add it to the reviewed '
                                 'list in sa/props/c02.py after reading it' % (u.mod.rel if u else '?', raw.lineno, key, where))
